@@ -697,3 +697,49 @@ def c04_pp(text, with_pm):
     prose = re.findall(r'(?<![A-Za-z])[a-z]+(?![A-Za-z])', text)
     lost = [w for w in prose if w not in pp]
     return bool(lost), f'pp_desc {pp!r}: prose words {lost} of {text!r} were deleted by preprocessing'
+
+
+# ------------------------------------------------------------------ C11
+@replay('c11_handover')
+def c11_handover(text, channel, extra):
+    import pytrs
+    if channel == 'init_kw':
+        d = pytrs.PLSSDesc(text, layout='copy_all', config=extra)
+        tracts = d.tracts
+    elif channel == 'config':
+        d = pytrs.PLSSDesc(text, config=(extra + ',copy_all').strip(','))
+        tracts = d.tracts
+    elif channel == 'assign':
+        d = pytrs.PLSSDesc(text, config=extra, wait_to_parse=True)
+        d.config = 'copy_all'
+        d.parse()
+        tracts = d.tracts
+    elif channel == 'parse_commit':
+        d = pytrs.PLSSDesc(text, config=extra)
+        d.parse(layout='copy_all')
+        tracts = d.tracts
+    else:
+        d = pytrs.PLSSDesc(text, config=extra)
+        tracts = d.parse(layout='copy_all', commit=False)
+    pp = d.preprocess()
+    bad = len(tracts) != 1 or str(tracts[0].desc) != pp
+    return bad, f'{len(tracts)} tracts: {[(t.trs, t.desc) for t in tracts]} (preprocessed text {pp!r})'
+
+
+@replay('c11_fallback')
+def c11_fallback(text, config, has_tr, has_sec):
+    import pytrs
+    from props.c11_ref import whole
+    d = pytrs.PLSSDesc(text, config=config)
+    pp = d.pp_desc
+    n_whole = sum(1 for t in d.tracts if whole(t.desc, pp) and t.desc)
+    if n_whole > 1:
+        return True, f'two tracts carry the complete text: {[(t.trs, t.desc) for t in d.tracts]}'
+    forced = config == 'copy_all'
+    forced_other = config in ('TRS_desc', 'desc_STR', 'S_desc_TR', 'TR_desc_S')
+    if forced or ((not has_tr or not has_sec) and 'segment' not in config and not forced_other):
+        if len(d.tracts) != 1 or not whole(d.tracts[0].desc, pp):
+            return True, f'expected one tract with the whole text, got {[(t.trs, t.desc) for t in d.tracts]}'
+        if not forced and not d.e_flags:
+            return True, 'fallback without an error flag'
+    return False, f'{[(t.trs, t.desc) for t in d.tracts]} e_flags={d.e_flags}'
